@@ -11,7 +11,7 @@ import ocf
 PROP = 'C03'
 THEOREMS = ['C03_finished_file', 'C03_reads_back', 'C03_failed_append_no_trace', 'C03_reopen_continues', 'C03_example']
 CFG = '(cfg 536870912 56 80)'
-RULE = ('histories over {append, unvalidated append, append_ser, extend_from_slice (all good / one rejected value), append rejected by '
+RULE = ('histories over {append_value_ref / append_value, unvalidated append (ref / owned), append_ser, extend_from_slice / extend / extend_ser (all good / one rejected value), append rejected by '
         'validation, unvalidated append and append_ser that fail after partial output, reset with values pending, flush, add_user_metadata (before/after header, avro.* keys), reset, '
         'into_inner, drop, append_to-style reopen} x block sizes {0,1,around the value size,16000} x codecs x 3 '
         'schema families (zero-width, fixed-width, variable-width record with a trailing nullable field). '
@@ -53,18 +53,22 @@ def gen_cases(tier, seed):
                     ops.append('(reopen)'); kinds.append('reopen'); open_ = True
                 continue
             if k < 8:
-                ops.append('(append %s)' % good(r)); kinds.append('append')
+                ops.append('(%s %s)' % (r.choice(['append', 'append', 'append-owned']), good(r))); kinds.append('append')
             elif k < 10:
-                ops.append('(append-unvalidated %s)' % good(r)); kinds.append('append')
+                ops.append('(%s %s)' % (r.choice(['append-unvalidated', 'append-unvalidated-owned']), good(r))); kinds.append('append')
             elif k < 11:
                 ops.append('(append (union 99 (null)))'); kinds.append('invalid')
             elif k < 12:
                 vs = [good(r) for _ in range(r.range(0, 3))]
+                ext = r.choice(['extend', 'extend-iter'])
                 if r.chance(1, 3):
                     vs.insert(r.below(len(vs) + 1), '(union 99 (null))')
-                    ops.append('(extend %s)' % ' '.join(vs)); kinds.append('extend-bad')
+                    ops.append('(%s %s)' % (ext, ' '.join(vs))); kinds.append('extend-bad')
+                elif partial and r.chance(1, 3):
+                    ops.append('(extend-ser %s)' % ' '.join('(p %d %s%s)' % (r.below(999), hx('e' * r.below(9)), (' %d' % r.below(99)) if r.chance(1, 2) else '') for _ in range(r.range(0, 3))))
+                    kinds.append('extend')
                 else:
-                    ops.append('(extend %s)' % ' '.join(vs)); kinds.append('extend')
+                    ops.append('(%s %s)' % (ext, ' '.join(vs))); kinds.append('extend')
             elif k < 14 and partial:
                 # rejected by validation / encoder fails after partial output / serializer fails after partial output
                 w = r.below(4)
@@ -122,9 +126,12 @@ def expected_values(ops, results):
     vals = []
     for op, res in zip(ops, results):
         t = parse(op)
-        if tag(t) in ('append', 'append-unvalidated', 'append-ser') and tag(res) == 'ok':
+        if tag(t) in ('append', 'append-unvalidated', 'append-owned', 'append-unvalidated-owned', 'append-ser') and tag(res) == 'ok':
             vals.append(res[1])
-        elif tag(t) == 'extend':
+        elif tag(t) == 'extend-ser':
+            if tag(res) == 'ok':
+                vals.extend(res[1:])
+        elif tag(t) in ('extend', 'extend-iter'):
             # every value before the first rejected one was appended
             for src, shown in zip(t[1:], res[1:]):
                 if show(src) == '(union 99 (null))':
@@ -175,14 +182,20 @@ def evaluate(run, lines, meta, exe, drv):
             for op, res in zip(mt['ops'], o[2][1:]):
                 t = parse(op)
                 n0 = len(mops)
-                if tag(t) in ('append', 'append-unvalidated'):
-                    mops.append('(%s %s)' % (t[0], show(res[1])))
+                if tag(t) in ('append', 'append-unvalidated', 'append-owned', 'append-unvalidated-owned'):
+                    mops.append('(%s %s)' % ('append' if t[0] in ('append', 'append-owned') else 'append-unvalidated', show(res[1])))
+                elif tag(t) == 'extend-ser':
+                    for shown in res[1:]:
+                        mops.append('(append-unvalidated %s)' % show(shown))
+                    mops.append('(flush)')
+                    groups.append(len(mops) - n0)
+                    continue
                 elif tag(t) == 'append-ser':
                     mops.append('(append-unvalidated %s)' % show(res[1]))
                 elif tag(t) == 'append-ser-bad':
                     # the serializer writes field a, then fails on field s: the encoder model fails on the missing field
                     mops.append('(append-unvalidated (record (kv #61 (long %s))))' % t[1])
-                elif tag(t) == 'extend':
+                elif tag(t) in ('extend', 'extend-iter'):
                     bad = False
                     for src, shown in zip(t[1:], res[1:]):
                         mops.append('(append %s)' % show(shown))
